@@ -47,6 +47,8 @@ pub enum Ph {
     GateDrop = 14,
     /// deadlock / hang detected here
     Stuck = 15,
+    /// F-migrate: the macro's future moved to another runtime (a = new runtime generation)
+    Migrate = 16,
 }
 
 #[derive(Clone, Debug, PartialEq, Eq)]
@@ -122,6 +124,10 @@ pub struct Plan {
     /// F-yield (async kinds): per-mille of the gate futures that, at their first poll, wake THEMSELVES from inside the poll, return
     /// Pending and are complete at the next poll (`yield_now` style); nobody else ever wakes them
     pub yield_pm: u32,
+    /// F-migrate (task-spawning async kinds): at the first decision >= this one at which no spawned task is alive, the macro's
+    /// future moves to ANOTHER runtime and the old one shuts down (tokio: `Handle::current()` differs from then on; spawning
+    /// through a handle of the old runtime yields a cancelled JoinHandle)
+    pub migrate_at: Option<u32>,
 }
 
 impl Default for Plan {
@@ -142,6 +148,7 @@ impl Default for Plan {
             ready_pm: 0,
             ready_seed: 0,
             yield_pm: 0,
+            migrate_at: None,
         }
     }
 }
@@ -199,6 +206,7 @@ impl Global {
                 ready_pm: 0,
                 ready_seed: 0,
                 yield_pm: 0,
+                migrate_at: None,
             },
             log: Vec::new(),
             occ: BTreeMap::new(),
